@@ -140,7 +140,8 @@ func Main(t *testing.T, engines map[string]EngineFunc) {
 		// the ones that keep the simulated system from becoming quiescent.
 		var keep []string
 		for _, g := range strings.Split(stacks, "\n\n") {
-			if strings.Contains(g, "[running") || strings.Contains(g, "[runnable") {
+			if strings.Contains(g, "[running") || strings.Contains(g, "[runnable") ||
+				strings.Contains(g, "[sync.Mutex.Lock") || strings.Contains(g, "[sync.RWMutex") || strings.Contains(g, "[semacquire") {
 				if len(g) > 2500 {
 					g = g[:2500]
 				}
@@ -150,7 +151,7 @@ func Main(t *testing.T, engines map[string]EngineFunc) {
 		if len(keep) > 6 {
 			keep = keep[:6]
 		}
-		detail := fmt.Sprintf("no quiescence within %v of real time: goroutines that never block:\n%s", StallLimit, strings.Join(keep, "\n\n"))
+		detail := fmt.Sprintf("no quiescence within %v of real time: goroutines that are running, runnable or waiting for a mutex (not a durable block in a bubble):\n%s", StallLimit, strings.Join(keep, "\n\n"))
 		res := rc.Res
 		if rc.StallClause != "" && res.Violation == nil {
 			res.Violation = &Violation{Prop: rc.Prop, Clause: rc.StallClause, Facts: rc.StallFacts, Msg: detail}
